@@ -20,12 +20,17 @@ What is proved here (model M4):
 * run-loop exit condition (`finished_iff`), broker shutdown queues every connection for removal with
   a Shutdown message and sets the flag (`broker_shutdown_queues_all`), idle shutdown only sets its
   flag (`idle_shutdown_sets_flag`).
+* in every reachable state (fewer than 2³² calls pending at a time) a call whose caller is no longer connected has
+  been ended on the caller's side: it is marked aborted, so nothing will ever be delivered for it
+  (`calls_of_a_removed_connection_are_ended`, from the cross-reference invariant of C02); in particular with no
+  connection left every remaining entry of the call table is an aborted one (`no_connections_no_live_call`).
 Partial: "no residual state once all connections are gone" (objects, services, calls, subscriptions of a
 removed connection are gone) needs the registry cross-reference invariant; it is covered by the correspondence runs (every
 scenario ends by closing everything in one of two orders, comparing `take_statistics` with the model
 and the model's gauges with its map sizes, and requiring `Broker::run` to finish), not by a theorem.
 -/
 import Aldrin.Lemmas.Broker.Gauge5
+import Aldrin.Lemmas.Broker.Xref2
 
 namespace Aldrin.Broker
 open Generated
@@ -87,5 +92,24 @@ example : (match run {} {} [.newConn 0 20, .newConn 1 20, .msg 0 (.createChannel
       .connShutdown 1, .shutdownIdle] with
     | .ok (b, w, _) => (b.stats.numChannels, b.channels.length, b.stats.numBusListeners, b.conns.length, finished b w)
     | .error _ => (9, 9, 9, 9, false)) = (0, 0, 0, 0, true) := by decide
+
+
+/-- a call whose caller is gone is marked aborted (`shutdown_connection` queues the abort of every call of the
+connection it removes, and the work loop has run them all before the next event) -/
+theorem calls_of_a_removed_connection_are_ended {b : Broker} {w : Work} (h : Reachable b w) {bs : Nat} {call : Call}
+    (hg : b.calls.get? bs = some call) (hgone : AL.find? call.callerConn b.conns = none) : call.aborted = true := by
+  cases hna : call.aborted with
+  | true => rfl
+  | false =>
+    exfalso
+    have hi := h.idle
+    rcases hi.x.b bs call hg hna with ⟨t, al, callee, hk, _⟩ | ⟨_, y, hy⟩ | ⟨_, _, _, h3, _⟩
+    · rw [ck_of_find_none hgone] at hk; simp at hk
+    · rw [hi.a] at hy; simp at hy
+    · simp at h3
+
+theorem no_connections_no_live_call {b : Broker} {w : Work} (h : Reachable b w) (hc : b.conns = []) {bs : Nat} {call : Call}
+    (hg : b.calls.get? bs = some call) : call.aborted = true :=
+  calls_of_a_removed_connection_are_ended h hg (by simp [hc, AL.find?])
 
 end Aldrin.Broker
